@@ -1,6 +1,7 @@
 """Obligations, findings, known-findings matching, evidence writing."""
 import json
 import os
+import re
 import time
 
 from .facts import VERIF, REPO, BrokenCheck
@@ -158,6 +159,33 @@ def finish(res, tier, t0, level="other", explanation="", trusted_base=(), assump
                 # one stale row excuses every relocated finding with its signature (a helper inlined into several callers
                 # duplicates the site); rows are consumed only to keep the pairing stable in the report
                 k = stale_rows[sg][0] if len(stale_rows[sg]) == 1 else stale_rows[sg].pop(0)
+                known_hit.append((o, k))
+                relocated.append((o, k))
+            else:
+                rest.append(o)
+        violations = rest
+    # Hardening: a listed failure site that used to *panic* (K1/K2/K4 of the COVER inventory) and went stale, while an unlisted
+    # `Err(..)` site of the same rule appeared in the same function (or a closure of it): the panic was turned into an error
+    # return.  The same accepted program still fails there - gracefully now - so it is the listed finding, not a new one.
+    # One stale row excuses one such site.
+    def _owner(full):
+        parts = full.split("|")
+        return re.sub(r"(::\{closure#\d+\})+$", "", parts[1]) if len(parts) > 2 else None
+    still_stale = [(full, k) for full, k in known_keys.items() if full not in hit_keys and not any(k is kk for _, kk in relocated)]
+    if still_stale and violations:
+        rest = []
+        for o in violations:
+            full_o = "%s|%s" % (o.rule, o.key)
+            po = full_o.split("|")
+            match = None
+            if len(po) > 3 and po[2] == "Err":
+                for i, (full, k) in enumerate(still_stale):
+                    pk = full.split("|")
+                    if pk[0] == po[0] and len(pk) > 3 and re.fullmatch(r"K[124]", pk[2]) and _owner(full) == _owner(full_o):
+                        match = i
+                        break
+            if match is not None:
+                full, k = still_stale.pop(match)
                 known_hit.append((o, k))
                 relocated.append((o, k))
             else:
